@@ -112,6 +112,32 @@ def natives(I):
         F = z3.Function(name, z3.StringSort(), z3.StringSort())
         return SStr([('sym', F(to_z3_string(arg)))])
 
-    table = dict(havoc_bool=havoc_bool, havoc_int=havoc_int, havoc_enum=havoc_enum, havoc_str=havoc_str,
+    def _uf_args(args):
+        from .values import to_z3_string
+        out = []
+        for a in args:
+            if isinstance(a, (str, SStr)):
+                out.append(to_z3_string(a))
+            elif isinstance(a, bool) or isinstance(a, z3.BoolRef):
+                out.append(zbool(a))
+            elif isinstance(a, (EnumVal, SEnum)):
+                out.append(zint(I.enum_code(a)))
+            else:
+                out.append(zint(a))
+        return out
+
+    def uf_bool(name, *args):
+        zs = _uf_args(args)
+        F = z3.Function(name, *([z.sort() for z in zs] + [z3.BoolSort()]))
+        return F(*zs)
+
+    def uf_enum(name, cls, arg):
+        from .values import to_z3_string
+        F = z3.Function(name, z3.StringSort(), z3.IntSort())
+        v = F(to_z3_string(arg))
+        I.assume(z3.And(v >= 0, v < len(I.enum_members(cls))))
+        return SEnum(cls, v)
+
+    table = dict(uf_bool=uf_bool, uf_enum=uf_enum, havoc_bool=havoc_bool, havoc_int=havoc_int, havoc_enum=havoc_enum, havoc_str=havoc_str,
                  ghost_set=ghost_set, ghost_get=ghost_get, symbolic_run=symbolic_run, uf_str=uf_str, opaque=opaque, ghost_events=ghost_events, ite=ite, implies=implies, conj=conj, disj=disj, iff=iff, forall=forall, exists=exists, members=members)
     return {f'pyvc.ghost.{k}': NativeFn(v, k) for k, v in table.items()}
